@@ -18,6 +18,9 @@ Next ==
           [] e.ev = "str" ->
                /\ Bump(5)
                /\ Check(WellFormed(e.bytes), "C10", "StringWellFormed", l, [src |-> e.src, what |-> e.what, bytes |-> e.bytes])
+               \* long strings are recorded as an excerpt (cut at a character boundary); `valid` is the verdict of
+               \* std::str::from_utf8 on the whole string
+               /\ Check(("valid" \notin DOMAIN e) \/ e.valid = 1, "C10", "StringWellFormed", l, [src |-> e.src, what |-> e.what, bytes |-> <<>>])
           [] e.ev = "note" -> TRUE
           [] OTHER -> Viol("TOOL", "unknown-event", l, e.ev)
   /\ l' = l + 1
